@@ -192,6 +192,9 @@ structure TMsg where
   bytes : Except Err (List Int) := .ok []
   /-- `msg.data` of a sysex message -/
   data : List Int := []
+  /-- `msg.type == 'set_tempo'` and its `tempo` -/
+  isSetTempo : Bool := false
+  tempo : Int := 0
   deriving DecidableEq, Repr, Inhabited
 
 /-- `struct.pack('>L', n)`; the range test is written with a division (`0 ≤ n < 2^32`) because a comparison of a
